@@ -325,7 +325,7 @@ fn state_space(ctx: &Ctx) -> Outcome {
                         let bytes = bits.to_bytes(e, 128);
                         let model = RdModel { bits: Bits::from_bytes(&bytes, e), e, zx: backend == "memzx", limit: nbits + 64, tables_ok: diag };
                         let rd = make_reader(e, kind, backend, "", &bytes);
-                        let run = RdRun { property: "C05", model: &model, image: &bytes, alphabet: &alphabet, max_states: 40_000, check_counter: false };
+                        let run = RdRun { property: "C05", model: &model, image: &bytes, alphabet: &alphabet, max_states: 40_000, check_counter: false, max_depth: 0 };
                         out.merge(explore(&run, rd));
                     }
                     out
